@@ -10,24 +10,28 @@ CLAIMED = {
         text="Kernel-checked Lean 4 theorems: the model of decode_varint/encode_varint/decode_varint_in_reverse/"
              "get_record_content/get_content_size/calculate_body_content_size equals the SQLite varint and serial-type "
              "specification for every input (no size bound); model tied to /repo on every run by differential "
-             "correspondence over all 1-2 byte strings, all width boundaries and random 64-bit values.",
-        design="§9 C15",
+             "correspondence over all 1-2 byte strings, all width boundaries and random 64-bit values, AND by translation: "
+             "decode_varint, encode_varint, decode_varint_in_reverse, get_content_size, get_serial_type_signature, calculate_expected_overflow "
+             "are regenerated from the Python source on every run (harness/translate/pyfun.py) and proved equal to the model for all arguments (Properties/GenFun).",
+        design="§9 C15, §5.5",
         note=NOTE + "struct.unpack('>d') and float division in int((st-12)/2) (exact below 2^53) are modelled, not verified.",
-        technique="Lean 4 refinement + round-trip proof over hand-written executable model; differential correspondence; constants translator",
+        technique="Lean 4 refinement + round-trip proof over hand-written executable model; Python-to-Lean translation of the pure functions with equality theorems (regenerated every run); differential correspondence; constants translator",
     ),
     "C16": dict(
         text="Theorems for every page size >= 512 and every payload size: local payload split of table-leaf and index cells, "
              "overflow page count and last-page fill equal SQLite's formulas; accepted overflow chains have exactly that shape "
              "and reassemble the payload length; pointer-map plan equals SQLite's PTRMAP positions for every database size. "
-             "Tied to the real cell classes by exhaustive correspondence over payload sizes.",
-        design="§9 C16", note=NOTE + "usable size = page size (reserved bytes refused); float constants exact for accepted page sizes (checked).", technique=T),
+             "Tied to the real cell classes by exhaustive correspondence over payload sizes (cells of every size incl. the largest local payload u-35), and by translation: the local-payload "
+             "arithmetic sliced out of TableLeafCell / IndexLeafCell / IndexInteriorCell.__init__ and calculate_expected_overflow are regenerated from the source on every run and proved equal to the model (Properties/GenFun).",
+        design="§9 C16, §5.5", note=NOTE + "usable size = page size (reserved bytes refused); float constants exact for accepted page sizes (checked); the translator and PyPrelude.lean (meaning of the Python operations) are trusted and self-tested against the interpreter.", technique=T + "; Python-to-Lean translation of the arithmetic with equality theorems"),
     "C17": dict(
         text="Theorems: every reported database/WAL/frame/journal header field is the big-endian value at its offset; an accepted "
              "database header satisfies the six format rules; every header SQLite writes is accepted; only the documented error "
              "classes occur; the header-difference classification across commits accepts exactly the legal header transitions "
              "(Properties/C17Step: sound and complete w.r.t. Spec.HeaderStep, which is run on consecutive headers of SQLite-written "
-             "histories). Tied by correspondence over field perturbations (every value of the 1- and 2-byte fields) and per-commit "
-             "PRAGMA values of WAL histories.",
+             "histories); the WAL-index (-shm) header (Properties/C17WalIndex): every field of both copies is the value at its wal.c offset in the file's byte order, accepted iff 136 bytes with version 3007000 in both copies, error class determined. "
+             "Tied by correspondence over field perturbations (every value of the 1- and 2-byte fields), per-commit "
+             "PRAGMA values of WAL histories (with and without store_in_memory, several schema changes per commit) and SQLite-written -shm headers.",
         design="§9 C17", note=NOTE + "reserved-bytes-per-page != 0 is refused by the tool although SQLite allows it (stated assumption).", technique=T),
     "C02": dict(
         text="Theorems on the WAL model: grouping of valid frames into commit records (nothing lost, each record ends in its only commit frame), version count = commit frames, page->frame and page->version indices answer every lookup with the latest frame / record (also with duplicate pages in one transaction), frame image offset = file-format offset, where each version reads each page from (wal_page_source, history_indices), stale-salt frames never served, accepted logs end in a commit frame. Row-level claims by vh.dump correspondence + per-commit SQLite snapshots, an independent checksum-verifying WAL reader for page images, and SQLite's own view of the pair for the newest version.",
@@ -74,8 +78,8 @@ CLAIMED = {
              "over the option lattice in fresh subprocesses; exported CSV/SQLite rows compared with API iteration.",
         design="§9 C12", note=NOTE + "partial: row values are C11; text/XLSX compared at entry level; multi-input runs at validation level; open findings C12-F1..F5.", technique="Lean 4 theorems over hand-written CLI model + AST-translated option table (translator options.py) + subprocess correspondence"),
     "C18": dict(
-        text="Theorems bounding the model's loops independently of damaged size fields: freeblock walk ends within 65537 steps with strictly ascending offsets, accepted overflow chains visit pairwise distinct pages and never exhaust their fuel, the expected-overflow count is a closed form, carving completes on arbitrary bytes (C08.completes), the journal carver never reads past the end; recursion through child / trunk pointers is bounded by the recursion-limit parameter (RecursionError). Tied by db.dump / vh.dump correspondence on targeted corruptions of every link / count / size field (cycles among later freeblocks, overflow cycles with a consistent huge size per cell kind), pairs, truncations, bit flips and damaged WALs, each run through parsing, census, version history, signatures, carving and iteration in a worker under a time limit (max(10 s, 200 x clean run)) and an address-space limit.",
-        design="§9 C18", note=NOTE + 'partial: seconds and RSS are measured, not proved; cost of recursion-limit-bounded walks (cyclic freelist trunks / child pointers) is large but finite; the signature / carving stages on damaged input are covered by the resource oracle, the correspondence covers parsing and version history.', technique=T + "; targeted byte-level corruption with resource-limited workers"),
+        text="Theorems bounding the model's loops independently of damaged size fields: freeblock walk ends within 65537 steps with strictly ascending offsets, accepted overflow chains visit pairwise distinct pages and never exhaust their fuel, the expected-overflow count is a closed form, carving completes on arbitrary bytes (C08.completes), the journal carver never reads past the end; the b-tree walk of the repaired code (fix cbbc570: a page reached twice in one descent is a parse error) constructs no page twice, its log of constructions is duplicate free on success and on failure, and it starts at most D constructions on a D-page version whatever the child pointers say (btree_walk_constructions_le_db / _wal; the pre-repair construction took fanout^depth steps on a DAG, witness dag_refused); the WAL-index scan performs at most (size-136)/4 + size/2 + 2 reads on every file (C18Scan); recursion through freelist trunk pointers is bounded by the recursion-limit parameter (RecursionError). Tied by db.dump / vh.dump correspondence on targeted corruptions of every link / count / size field (cycles among later freeblocks, overflow cycles with a consistent huge size per cell kind, shared children and appended chains of interior pages), pairs, truncations, bit flips and damaged WALs, each run through parsing, census, version history, signatures, carving and iteration in a worker under a time limit (max(10 s, 200 x clean run)) and an address-space limit.",
+        design="§9 C18", note=NOTE + 'partial: seconds and RSS are measured, not proved; cost of the recursion-limit-bounded freelist trunk walk is large but finite; many cells sharing one long overflow chain cost cells x pages (quadratic for a crafted file; each damaged cell at most one pass); the signature / carving stages on damaged input are covered by the resource oracle, the correspondence covers parsing and version history.', technique=T + "; targeted byte-level corruption with resource-limited workers"),
     "C08": dict(
         text="Theorems over the model of SignatureCarver / CarvedRecord / the iterator's carving fold (Properties/C08): carving COMPLETES on every region (unallocated area, freelist page, journal image, freeblock; every signature incl. one-column tables) - result or, beyond 2^53 bytes, the model's own outside-model mark, no exception class escapes; every carved cell's file offset and bytes are backed by the region (freeblocks through content_start_offset); the digest is the record's bytes; pairwise distinct digests over a history (no re-report); the journal carver never reads past the end. Former escapes are kept as fixed_* witnesses. Tied by carve.record / region / table / iter / journal correspondence against the real carver on generated regions and SQLite-written databases, WALs and journals.",
         design="§9 C08", note=NOTE + "partial: 'inside free space of a page of that table, never inside a live cell' by oracle (independent page reader) only; sizes < 2^53; Python re validated, not verified.", technique=T),
@@ -89,12 +93,12 @@ CLAIMED = {
         text='Theorems (Properties/C01Tree, C01Cell, C01): a table b-tree laid out in the file as SQLite lays it out (Spec.TreeLaidOut over Spec.PageLaidOut over Spec.writeTableLeafCell / encodeRecord, any depth, overflow chains, page 1 included) is parsed, given the stated recursion budget, into exactly its leaf cells in traversal order, each with the stored rowid and column values (table_tree_rows); cell- and page-level round trips; codecs (C15), payload split / chain shape (C16), layout acceptance (C06). The specification is validated against files SQLite wrote (every sampled live cell and page satisfies it). Full-pipeline executable model compared section by section with the implementation over the whole configuration grid, rows compared with SQLite.',
         design="§9 C01", note=NOTE + 'the whole-database statement (schema row -> root page -> tree) is composed by the correspondence, not by one theorem; schema SQL parsing is outside the model; usable size = page size (reserved bytes are refused by the tool).', technique=T),
     "C14": dict(
-        text='Theorems (Properties/C01Tree, C01Cell): an index / WITHOUT ROWID b-tree laid out as SQLite lays it out is parsed into exactly its cells — interior cells included — with the stored values and overflow reassembled (index_tree_entries, index_leaf_page_entries, index_leaf_cell_roundtrip); the leaf-only helpers return a sub-list (C13.leaf_cells_sublist); index payload arithmetic in C16. Same model and correspondence as C01, entries compared as multisets with the entries SQLite holds, one-column WITHOUT ROWID tables (3-byte cells) included.',
+        text='Theorems (Properties/C14, C01Tree, C01Cell): an index / WITHOUT ROWID b-tree laid out as SQLite lays it out (pairwise distinct pages) is parsed into exactly its cells — interior cells included — with the stored values and overflow reassembled (C14.index_entries, index_leaf_page_entries, index_leaf_cell_roundtrip); the leaf-only listing visits exactly the leaf entries with the stored values, a sub-list of all entries (C14.leaf_listing, leaf_listing_subset), and never an interior entry (interior_entries_not_listed); index payload arithmetic in C16. Same model and correspondence as C01, entries compared as multisets with the entries SQLite holds, one-column WITHOUT ROWID tables (3-byte cells) included.',
         design="§9 C14", note=NOTE + 'key order / uniqueness of index entries is not part of the property; collation is irrelevant to decoding.', technique=T),
     "C13": dict(
-        text="Theorem strict_irrelevant (relaxed checking never changes an accepted layout) plus model/implementation correspondence under "
-             "every (store_in_memory, strict) combination; implementation compared pairwise over all 48 configurations and run twice.",
-        design="§9 C13", note=NOTE + "partial: cache_eq_fresh / entry_irrelevant are decided by the pairwise run, not by theorems.", technique=T),
+        text="Theorems: relaxed checking never changes an accepted layout / tree / walk / database (strict_irrelevant, tree_, walk_, database_strict_irrelevant), store-in-memory and a true explicit size are irrelevant to what Database returns; argument forwarding of EVERY constructor call in the library decided over the call-site table regenerated from the source on every run (Properties/C13Calls: forwarding_by_name, interface_helpers_forward). Model/implementation correspondence under "
+             "every (store_in_memory, strict) combination; implementation compared pairwise over 52 configurations (path, file object, file object opened by relative name with a decoy) and run twice; histories incl. shrinking ones.",
+        design="§9 C13, §5.6", note=NOTE + "partial: cache_eq_fresh and the file-object identifier kinds are decided by the pairwise run, not by theorems.", technique=T + "; AST translator for constructor call sites"),
 }
 
 ALL = ["C%02d" % i for i in range(1, 19)]
